@@ -625,8 +625,10 @@ def disconnectUtxo (s : State) : Option (State × List Tx) :=
   match s.undo with
   | [] => none
   | (txs, spentCoins) :: rest =>
-    let u := txs.foldl (fun u t => (iota t.outs.length).foldl (fun u v => u.del (t.id, v)) u) s.utxo
-    let u := spentCoins.foldl (fun u p => u.set p.1 p.2) u
+    -- restore what the block spent, then remove what it created (an output created and spent inside the
+    -- block is in `spentCoins` too and must not survive)
+    let u := spentCoins.foldl (fun u p => u.set p.1 p.2) s.utxo
+    let u := txs.foldl (fun u t => (iota t.outs.length).foldl (fun u v => u.del (t.id, v)) u) u
     some ({ s with utxo := u, undo := rest }, txs)
 
 /-- BlockUndone (the UTXO set is already rolled back) -/
